@@ -100,7 +100,8 @@ let fb_words maxlen =
     done
   done;
   List.rev !out
-let scripts = ["L"; "N0 L"; "N1 F L"; "F N1 B L"; "B N0 L"; "N2 L"; "N5 L F"; "F B L"; "B B N1 L"; "R0 L"; "R1 B L"; "F R1 F L"; "R2 L F"; "N1 R1 L"; "R5 L B"]
+let scripts = ["L"; "N0 L"; "N1 F L"; "F N1 B L"; "B N0 L"; "N2 L"; "N5 L F"; "F B L"; "B B N1 L"; "R0 L"; "R1 B L"; "F R1 F L"; "R2 L F"; "N1 R1 L"; "R5 L B"; "C T"; "F C T"; "B T C"; "N1 C T"; "R1 T C";
+  "B N0 F"; "B N1 L"; "B B N2 L"; "B B N0 F L"; "B B B N3 L"; "F B N1 L"; "N3 L"; "B B N3 L"; "B N2 F L"]
 
 (* a generic iterator: state + next / next_back / nth / len, results as ints (-1 = None) *)
 type 's iter = {
@@ -140,6 +141,14 @@ let run_deque (it : 's iter) (b : Buffer.t) =
           | 'N' ->
             let n = int_of_string (String.sub tok 1 (String.length tok - 1)) in
             let (x, s') = it.nth n !s in s := s'; Buffer.add_string b (string_of_int x)
+          | 'C' ->
+            (* Iterator::count of a copy: the number of remaining items *)
+            let rec cnt st acc = let (x, st') = it.next st in if x < 0 then acc else cnt st' (acc + 1) in
+            Buffer.add_string b (string_of_int (cnt !s 0))
+          | 'T' ->
+            (* Iterator::last of a copy *)
+            let rec lst st acc = let (x, st') = it.next st in if x < 0 then acc else lst st' x in
+            Buffer.add_string b (string_of_int (lst !s (-1)))
           | 'R' ->
             (* DoubleEndedIterator::nth_back (not overridden by the crate): n + 1 calls of next_back, stopping at None *)
             let n = int_of_string (String.sub tok 1 (String.length tok - 1)) in
@@ -189,6 +198,9 @@ let dump_doc (idx : Stdlib.String.t) (flags : Stdlib.String.t) (text : n list) (
         (oid (get (first_child d i))) (oid (get (last_child d i)))
         (int_of_n (sit_len (get (descendants d i))))
     done;
+  (* NK: disagreements between the kind predicates / id conversions / storage accessors and node_type / id / text / tail: in the
+     model these are the same functions, so 0 *)
+  if has 'n' then pr "%s NK 0\n" idx;
   if has 'c' then
     for id = 0 to n - 1 do
       match nodes.(id).nd_kind with
